@@ -3,6 +3,7 @@ Helper lemmas for Props/C12kan.lean: the sequence hooks of the composed kanata-l
 (Model/Kanata.lean + Model/KanataSeq.lean) when everything but the sequence state is at rest, and
 the press loop in the hidden input modes.
 -/
+import KVerif.Lemmas.KanataDynQuiet
 import KVerif.Lemmas.KanataQuiet
 import KVerif.Props.C07
 import KVerif.Props.C12
@@ -75,6 +76,7 @@ structure SeqQuiet (k : KState) (cur' : List KeyCode) (ost : Override.OverrideSt
   moveH : k.moveH = none
   wfi : k.waitingForIdle = []
   vk : k.vkeysPendingRelease = []
+  noRec : k.dyn.rcd = none      -- [dyn] no dynamic macro is being recorded (its delay counter would tick)
 
 /-- one `tick_states` with everything but the sequence state at rest: the layout ages, the sequence
 timer ticks (`seqTick`), the OS gets what `tick_sequence_state` sends and nothing else -/
@@ -115,6 +117,10 @@ theorem seqQuiet_tick (k : KState) (cur' : List KeyCode) (ost : Override.Overrid
     rw [e3]; simp only []
     rw [e3s]; simp only []
     rw [e4]; simp only []
+    have e6 : dynTickRecord { k1s with macroOnPressCancelDuration := k1s.macroOnPressCancelDuration - 1 }
+        = { k1s with macroOnPressCancelDuration := k1s.macroOnPressCancelDuration - 1 } :=
+      dynTickRecord_none _ h.noRec
+    rw [e6]
     rw [← hk2]; exact e5
   · intro hn
     subst hn
@@ -123,7 +129,7 @@ theorem seqQuiet_tick (k : KState) (cur' : List KeyCode) (ost : Override.Overrid
     have := congrArg KState.out ho
     exact this.symm
   · have hkc : (tickPre k.layout).keycodes = k.layout.keycodes := by unfold Layout.keycodes; rw [hst]
-    refine ⟨hq', h.caps, rfl, ?_, h.noErase, ⟨fun _ hx => hx, fun _ hx => hx⟩, h.scroll, h.hscroll, h.moveV, h.moveH, h.wfi, h.vk⟩
+    refine ⟨hq', h.caps, rfl, ?_, h.noErase, ⟨fun _ hx => hx, fun _ hx => hx⟩, h.scroll, h.hscroll, h.moveV, h.moveH, h.wfi, h.vk, h.noRec⟩
     show k.overrides.overrideKeys (adjustKeys ({ afterQuietTick k cur' ost with seq := sk, out := o } : KState) (tickPre k.layout).keycodes) ost = .ok (cur', ost)
     have hadj : adjustKeys ({ afterQuietTick k cur' ost with seq := sk, out := o } : KState) (tickPre k.layout).keycodes = adjustKeys k k.layout.keycodes := by
       rw [hkc]; rfl
